@@ -194,7 +194,10 @@ FastGaussianNoise<in_class, out_class, _lu_depth>::FastGaussianNoise( double sig
   check_template_params();
 
   //Center cannot be initialized before the constructor
-  mpfr_init_set(_center, center, MPFR_RNDN);
+  // keep the precision of the given center (mpfr_init_set would round it to
+  // the default 53 bits)
+  mpfr_init2(_center, mpfr_get_prec(center));
+  mpfr_set(_center, center, MPFR_RNDN);
   rounded_center = mpfr_get_d(_center, MPFR_RNDN);
 
   //Initialization functions
